@@ -1,8 +1,196 @@
-/- line-protocol engine `scope` (stub: answers bad-op until the engine is built) -/
+/- line-protocol engine `scope`: the compile-time scope model (C03).
+
+Request:  scope compile <fuel> <program as one S-expression (coregen format + (fwd name))>
+Response: (root (cells …) (decls …))      -- same shape as the harness' dump of the real compiler, projected
+          err <class> [<name>]
+Request:  scope resolve <fuel> <i> <cells of scope 0> | <cells of its parent> | …     cells: V R C<d>.<k>
+Response: <distance> <cell>  |  none
+Request:  scope thread <parentLen> <cells>
+Response: <specs> | <requests>
+-/
+import XrayModel.Scope
+open XrayModel.Scope
+namespace XrayDriver.ScopeE
+
+inductive SExp where
+  | atom (s : String)
+  | list (xs : List SExp)
+  deriving Inhabited
+
+def tokenize (s : String) : List String :=
+  let rec go (cs : List Char) (cur : List Char) (acc : List String) : List String :=
+    match cs with
+    | [] => (if cur.isEmpty then acc else String.ofList cur.reverse :: acc).reverse
+    | c :: rest =>
+      if c == '(' || c == ')' then
+        let acc := if cur.isEmpty then acc else String.ofList cur.reverse :: acc
+        go rest [] (String.singleton c :: acc)
+      else if c == ' ' then
+        let acc := if cur.isEmpty then acc else String.ofList cur.reverse :: acc
+        go rest [] acc
+      else go rest (c :: cur) acc
+  go s.toList [] []
+
+def parseSExp (toks : List String) : Option SExp :=
+  let rec go (toks : List String) (stack : List (List SExp)) : Option SExp :=
+    match toks with
+    | [] => match stack with
+        | [[x]] => some x
+        | _ => none
+    | "(" :: rest => go rest ([] :: stack)
+    | ")" :: rest => match stack with
+        | top :: below :: more => go rest ((SExp.list top.reverse :: below) :: more)
+        | _ => none
+    | t :: rest => match stack with
+        | top :: more => go rest ((SExp.atom t :: top) :: more)
+        | [] => none
+  go toks [[]]
+
+mutual
+  partial def toExpr : SExp → Option SExpr
+    | .list [.atom "i", _] => some .lit
+    | .list [.atom "b", _] => some .lit
+    | .list [.atom "s"] => some .lit
+    | .list [.atom "s", _] => some .lit
+    | .list [.atom "v", .atom x] => some (.ident x)
+    | .list (.atom "c" :: .atom f :: args) => (args.mapM toExpr).map (SExpr.call (.ident f))
+    | .list (.atom "ce" :: f :: args) => do
+        let f' ← toExpr f
+        let as ← args.mapM toExpr
+        pure (.call f' as)
+    | .list [.atom "lam", .list ps, .list ds, body] => do
+        let ps' ← ps.mapM toParam
+        let ds' ← ds.mapM toDecl
+        let b ← toExpr body
+        pure (.lam (.mk ps' ds' b))
+    | .list (.atom "tup" :: es) => (es.mapM toExpr).map SExpr.tup
+    | .list (.atom "arr" :: es) => (es.mapM toExpr).map SExpr.tup
+    | .list [.atom "item", e, .atom n] => do
+        let e' ← toExpr e
+        let i ← n.toNat?
+        pure (.member e' i)
+    | _ => none
+  partial def toParam : SExp → Option SParam
+    | .list [.atom "p", .atom n] => some (.mk n none)
+    | .list [.atom "pd", .atom n, d] => (toExpr d).map (fun d' => .mk n (some d'))
+    | _ => none
+  partial def toDecl : SExp → Option SDecl
+    | .list [.atom "let", .atom x, e] => (toExpr e).map (SDecl.letD x)
+    | .list [.atom "fn", .atom n, .list ps, .list ds, body] => do
+        let ps' ← ps.mapM toParam
+        let ds' ← ds.mapM toDecl
+        let b ← toExpr body
+        pure (.fnD n (.mk ps' ds' b))
+    | .list [.atom "fwd", .atom n] => some (.fwdD n)
+    | _ => none
+end
+
+def showCell : Cell → String
+  | .var => "V"
+  | .recur => "R"
+  | .cap d k => s!"(C {d} {k})"
+
+def spaced (xs : List String) : String := String.join (xs.map (fun x => " " ++ x))
+
+mutual
+  partial def showXE : XE → String
+    | .lit => "lit"
+    | .ident x => "(ident " ++ x ++ ")"
+    | .lamF _ => "(lamF)"
+    | .val i => s!"(val {i})"
+    | .call f args => "(call " ++ showXE f ++ spaced (args.map showXE) ++ ")"
+    | .bcall _ args => "(bcall" ++ spaced (args.map showXE) ++ ")"
+    | .tup es => "(tup" ++ spaced (es.map showXE) ++ ")"
+    | .member e i => "(member " ++ showXE e ++ s!" {i})"
+  partial def showDecl : CDecl → String
+    | .param c a => s!"(param {c} {a})"
+    | .value c e => s!"(value {c} " ++ showXE e ++ ")"
+    | .func c f => s!"(function {c} " ++ showFunc f ++ ")"
+  partial def showFunc : CFunc → String
+    | .mk n cells dflts decls out freqs =>
+      s!"(ud {n} (cells" ++ spaced (cells.map showCell) ++ ") (defaults" ++ spaced (dflts.map showXE)
+        ++ ") (decls" ++ spaced (decls.map showDecl) ++ ") (out " ++ showXE out ++ s!") (freqs {freqs.length}))"
+end
+
+def showErr : Err → String
+  | .valueNotFound x => "err ValueNotFound " ++ x
+  | .overloadedAsVariable x => "err OverloadedFunctionAsVariable " ++ x
+  | .ambiguous x => "err AmbiguousOverload " ++ x
+  | .illegalShadowing x => "err IllegalShadowing " ++ x
+  | .missingForward x => "err MissingForwardImplementation " ++ x
+  | .panic w => "panic " ++ w
+  | .fuel => "oof"
+
+def compileCmd (args : List String) : String :=
+  match args with
+  | fuel :: rest =>
+    match fuel.toNat?, parseSExp (tokenize (String.intercalate " " rest)) with
+    | some fuel', some (.list (.atom "prog" :: ds)) =>
+      match ds.mapM toDecl with
+      | none => "bad-op"
+      | some decls =>
+        match compileProgram fuel' decls with
+        | .error e => showErr e
+        | .ok root =>
+          "(root (cells" ++ spaced (root.cells.map showCell) ++ ") (decls" ++ spaced (root.decls.map showDecl) ++ "))"
+    | _, _ => "bad-op"
+  | _ => "bad-op"
+
+def parseCell (s : String) : Option Cell :=
+  if s == "V" then some .var
+  else if s == "R" then some .recur
+  else if s.startsWith "C" then
+    match (String.ofList (s.toList.drop 1)).splitOn "." with
+    | [d, k] => do
+        let d' ← d.toNat?
+        let k' ← k.toNat?
+        pure (.cap d' k')
+    | _ => none
+  else none
+
+def splitBar (xs : List String) : List (List String) :=
+  let rec go (xs : List String) (cur : List String) (acc : List (List String)) : List (List String) :=
+    match xs with
+    | [] => (cur.reverse :: acc).reverse
+    | "|" :: rest => go rest [] (cur.reverse :: acc)
+    | x :: rest => go rest (x :: cur) acc
+  go xs [] []
+
+def showCellC : Cell → String
+  | .var => "V"
+  | .recur => "R"
+  | .cap d k => s!"C{d}.{k}"
+
+def resolveCmd (args : List String) : String :=
+  match args with
+  | fuel :: i :: rest =>
+    match fuel.toNat?, i.toNat?, (splitBar rest).mapM (fun l => l.mapM parseCell) with
+    | some f, some i', some chain =>
+      match resolve f chain i' with
+      | none => "none"
+      | some (d, k) => s!"{d} {k}"
+    | _, _, _ => "bad-op"
+  | _ => "bad-op"
+
+def threadCmd (args : List String) : String :=
+  match args with
+  | n :: rest =>
+    match n.toNat?, rest.mapM parseCell with
+    | some n', some cells =>
+      let r := threadCells cells n'
+      String.intercalate " " (r.1.map showCellC) ++ " | " ++ String.intercalate " " (r.2.map showCellC)
+    | _, _ => "bad-op"
+  | _ => "bad-op"
+
+end XrayDriver.ScopeE
+
 namespace XrayDriver
 
 def scopeEngine (f : String) (args : List String) : String :=
-  match f, args with
-  | _, _ => "bad-op"
+  match f with
+  | "compile" => ScopeE.compileCmd args
+  | "resolve" => ScopeE.resolveCmd args
+  | "thread" => ScopeE.threadCmd args
+  | _ => "bad-op"
 
 end XrayDriver
